@@ -7,9 +7,14 @@ CONSTANTS
   Time = {1, 2}
   Locales = {"C", "xx_XX"}
   EnvSizes = {0, 1}
+  PwdValues = {"unset", "real", "link", "dotdot", "garbage"}
+  CwdVia = {"real", "link"}
+  OcNames = {"rel", "abs"}
+  CwdSource = "getcwd"
   TieBreak = "signature"
 INVARIANT OutputPure
 INVARIANT EpochWins
+INVARIANT EmbedsArgumentsOnly
 INVARIANT IffTotal
 INVARIANT TotalWithTieBreak
 INVARIANT EmittedRespectsKeys
